@@ -138,8 +138,11 @@ StepPut(e) ==
          A2 == IF stored /\ bySync /\ ~NothingFromLiars(s.taint)
                  THEN {Alarm("NothingFromLiars", e, "stored-after-" \o s.why)} ELSE {}
          A3 == IF e.hb >= 0 /\ e.hb # THead THEN Conf(e, "head before the put differs from the tracked store") ELSE {}
+         \* a repair goes through the raw store, behind the append store's back: it must never write above the stored head
+         A5 == IF stored /\ resync /\ e.hb >= 0 /\ e.round > e.hb
+                 THEN {Alarm("WritesAboveHead", e, "repair-wrote-above-the-head")} ELSE {}
          A4 == IF e.sid = 0 THEN Conf(e, "put by an unknown writer") ELSE {}
-     IN /\ alarms' = alarms \cup A1 \cup A2 \cup A3 \cup A4
+     IN /\ alarms' = alarms \cup A1 \cup A2 \cup A3 \cup A4 \cup A5
         /\ ts' = IF stored /\ e.round \in TRounds
                    THEN [ts EXCEPT ![e.round] = IF e.verifies THEN "ok" ELSE "bad"] ELSE ts
         /\ str' = IF bySync THEN [str EXCEPT ![e.sid].pendSeen = TRUE] ELSE str
@@ -176,7 +179,8 @@ StepCheck(e) ==
                  THEN IF {r \in 1..Min2(e.upTo, THead) : r \in bad} # {}
                         THEN {Alarm("CheckExact", e, "check-aborted")} ELSE {}
                  ELSE IF ~CheckExact(rep, bad, e.upTo, THead)
-                        THEN {Alarm("CheckExact", e, IF rep \subseteq bad THEN "missed-faulty-round" ELSE "reported-sound-round")}
+                        THEN {Alarm("CheckExact", e, IF \E r \in rep : r > THead THEN "reported-round-above-head"
+                                                      ELSE IF rep \subseteq bad THEN "missed-faulty-round" ELSE "reported-sound-round")}
                         ELSE {}
          A2 == IF aborted # LastUnreadable(ts, TChained) THEN Conf(e, "the check aborts exactly when Last() is unreadable")
                ELSE IF ~aborted /\ rep # CheckOp(ts, TChained, e.upTo) THEN Conf(e, "reported set differs from CheckOp") ELSE {}
@@ -212,7 +216,9 @@ StepCorrected(e) ==
          A3 == IF RepairLosesRound(prec, postc) \/ curLost # {}
                  THEN {Alarm("RepairLosesRound", e, IF interrupted THEN "round-missing-after-interrupted-repair"
                                                                     ELSE "round-missing-after-repair")} ELSE {}
-     IN alarms' = alarms \cup A1 \cup A2 \cup A3
+         top(f) == LET S == {r \in TRounds : f[r] # "none"} IN IF S = {} THEN 0 ELSE CHOOSE r \in S : \A q \in S : q <= r
+         A4 == IF top(postc) > top(prec) THEN {Alarm("WritesAboveHead", e, "head-moved-by-repair")} ELSE {}
+     IN alarms' = alarms \cup A1 \cup A2 \cup A3 \cup A4
   /\ UNCHANGED <<sc, ts, str, info>>
 
 \* end of the scenario: the system is quiescent (or the fair environment used its budget)
